@@ -17,7 +17,7 @@ import sys
 import time
 
 from . import prep, kani
-from .prep import VERIF, WORK
+from .prep import VERIF, WORK, OUT
 
 sys.path.insert(0, VERIF)
 from mirsym import queries as Q          # noqa: E402
@@ -67,9 +67,9 @@ def load_known():
 
 
 def save_replay(rep, prop, record):
-    os.makedirs(os.path.join(VERIF, 'replays'), exist_ok=True)
+    os.makedirs(os.path.join(OUT, 'replays'), exist_ok=True)
     blob = json.dumps(record, sort_keys=True)
-    path = os.path.join(VERIF, 'replays', '%s-%s.json' % (prop, hashlib.sha1(blob.encode()).hexdigest()[:12]))
+    path = os.path.join(OUT, 'replays', '%s-%s.json' % (prop, hashlib.sha1(blob.encode()).hexdigest()[:12]))
     with open(path, 'w') as f:
         json.dump(record, f, indent=1, sort_keys=True)
     return path
@@ -126,6 +126,23 @@ def ob_add(rep, ob):
     d = ob.as_dict()
     rep.add(d)
     return ob
+
+
+def decide_unit_obligation(rep, qfun, ctx, *args, **kw):
+    """obligations over units of >= 2 code points: first for ARBITRARY code points (strongest; unsat on a correct tree);
+    if that is sat, ask again for units the public API can produce, so that a reported counterexample is reachable"""
+    o = qfun(ctx, *args, **kw)
+    if o.result == 'sat':
+        d = o.as_dict()
+        d['result'] = 'superseded'
+        d['note'] = 'sat for arbitrary code points; re-decided for units that are one grapheme cluster (next entry)'
+        rep.obligations.append(d)
+        o2 = qfun(ctx, *args, realisable=True, **kw)
+        if o2.qid.endswith('[realisable]'):
+            if o2.result == 'unsat':
+                o2.extra['note_unreachable'] = 'the code deviates only on units the grapheme splitter never produces; nothing is reported'
+            o = o2
+    return ob_add(rep, o)
 
 
 # --------------------------------------------------------------------------- translator validation
@@ -201,6 +218,44 @@ def py_escape_ref(c, surr):
     return [ord(x) for x in '\\u{%x}' % c]
 
 
+def decode_escapes(text):
+    """inverse of grex's escaping on the text of ONE unit: \\u{h} (surrogate pairs re-paired), \\n \\r \\t, \\x -> x; None if malformed"""
+    out, i, s = [], 0, ''.join(map(chr, text))
+    while i < len(s):
+        if s.startswith('\\u{', i):
+            j = s.find('}', i)
+            if j < 0:
+                return None
+            try:
+                v = int(s[i + 3:j], 16)
+            except ValueError:
+                return None
+            if 0xD800 <= v <= 0xDBFF and s.startswith('\\u{', j + 1):
+                k = s.find('}', j + 1)
+                try:
+                    lo = int(s[j + 4:k], 16)
+                except ValueError:
+                    return None
+                if 0xDC00 <= lo <= 0xDFFF:
+                    out.append(0x10000 + ((v - 0xD800) << 10) + (lo - 0xDC00))
+                    i = k + 1
+                    continue
+            out.append(v)
+            i = j + 1
+        elif s[i] == '\\' and i + 1 < len(s):
+            out.append({'n': 10, 'r': 13, 't': 9}.get(s[i + 1], ord(s[i + 1])))
+            i += 2
+        else:
+            out.append(ord(s[i]))
+            i += 1
+    return out
+
+
+def escaped_unit_bad(text, seq):
+    """C11 at unit level: the escaped text must be pure ASCII and decode back to the unit"""
+    return any(x > 127 for x in text) or decode_escapes(text) != list(seq)
+
+
 def check_c11(rep):
     rep.statement = ('for every scalar value c and both values of the surrogate flag, Grapheme::escape returns: c itself if '
                      'c < U+0080; "\\u{hex}" otherwise; the UTF-16 high and low surrogate escapes for EVERY c in '
@@ -218,7 +273,25 @@ def check_c11(rep):
     for n in range(2, nmax + 1):
         if len(single) >= env.ctx.cap('Q11'):
             break
-        obs.append(ob_add(rep, Q.q11s(env.ctx, n, exclude=single)))
+        obs.append(decide_unit_obligation(rep, Q.q11s, env.ctx, n, exclude=single))
+    # the single-character test on the escaped form (decides whether a unit may enter a character class unescaped)
+    kobs = [decide_unit_obligation(rep, Q.q11k, env.ctx, n) for n in ((1, 2) if rep.tier == 'quick' else (1, 2, 3))]
+    for o in kobs:
+        if o.result != 'sat':
+            continue
+        for m in o.verdict.models:
+            seq = [m[k] for k in sorted((k for k in m if re.fullmatch(r'c\d+', k)), key=lambda s_: int(s_[1:]))]
+            esc = m['esc']
+            want = sum(len(py_escape_ref(x, False)) for x in seq) if esc else len(seq)
+            got = env.eval([{'op': 'char_count', 'units': [seq], 'escaped': esc},
+                            {'op': 'build', 'cases': [[seq[0]], [0x78]], 'settings': {'escape': True}}])
+            key = 'unit=%s,escaped=%s' % ('+'.join(u(x) for x in seq), str(esc).lower())
+            pat = ''.join(map(chr, got[1].get('ok') or []))
+            what = 'char_count(%s) = %s, but the %s text has %d characters; build([c, "x"]) with escaping gives %s%s' % (
+                key, got[0].get('ok'), 'escaped' if esc else 'plain', want, json.dumps(pat),
+                ' (not pure ASCII)' if any(ord(ch) > 127 for ch in pat) else '')
+            classify(rep, known, o.qid, key, what, {'inputs': {'units': [seq], 'escaped': esc}, 'expected': want, 'observed': got},
+                     got[0].get('ok') != want)
     # translator validation
     cases = []
     for c in sample_cps(rep):
@@ -237,22 +310,29 @@ def check_c11(rep):
                 seq = [m['c%d' % i] for i in range(len([k for k in m if re.fullmatch(r'c\d+', k)]))]
                 s = m['surr']
             want = sum((py_escape_ref(x, s) for x in seq), [])
-            got = env.eval([{'op': 'escape_char', 'c': x, 'surrogates': s} for x in seq] +
-                           [{'op': 'build', 'cases': [seq], 'settings': {'escape': True, 'surrogates': s}}])
-            kernel = sum((g.get('ok') or [] for g in got[:-1]), [])
+            got = env.eval([{'op': 'escape_regexp_symbols', 's': seq, 'escape': True, 'surrogates': s},
+                            {'op': 'split', 's': seq},
+                            {'op': 'build', 'cases': [seq], 'settings': {'escape': True, 'surrogates': s}}])
+            kernel = got[0].get('ok') or []
+            bad = escaped_unit_bad(kernel, seq) or (len(seq) == 1 and seq[0] >= 0x80 and kernel != want)
+            if len(seq) > 1 and got[1].get('ok') != [seq]:
+                bad = False         # not a unit the splitter produces: unreachable through the public API
             key = 'c=%s,surrogates=%s' % ('+'.join(u(x) for x in seq), str(s).lower())
             what = 'escape gives "%s", expected "%s"; build() gives %s' % (
                 ''.join(map(chr, kernel)), ''.join(map(chr, want)), json.dumps(''.join(map(chr, got[-1].get('ok') or []))))
             classify(rep, known, o.qid, key, what, {'inputs': {'cps': seq, 'surrogates': s}, 'expected': want,
-                                                     'observed_kernel': kernel, 'observed_build': got[-1]}, kernel != want)
+                                                     'observed_kernel': kernel, 'observed_build': got[-1]}, bad)
 
 
 def replay_c11(env, rec):
+    if 'units' in rec['inputs']:
+        got = env.eval([{'op': 'char_count', 'units': rec['inputs']['units'], 'escaped': rec['inputs']['escaped']}])
+        return got[0].get('ok') != rec['expected'], 'char_count = %s, expected %s' % (got[0].get('ok'), rec['expected'])
     seq, s = rec['inputs']['cps'], rec['inputs']['surrogates']
-    got = env.eval([{'op': 'escape_char', 'c': x, 'surrogates': s} for x in seq])
-    kernel = sum((g.get('ok') or [] for g in got), [])
+    got = env.eval([{'op': 'escape_regexp_symbols', 's': seq, 'escape': True, 'surrogates': s}])
+    kernel = got[0].get('ok') or []
     want = sum((py_escape_ref(x, s) for x in seq), [])
-    return kernel != want, 'escape gives "%s", expected "%s"' % (''.join(map(chr, kernel)), ''.join(map(chr, want)))
+    return escaped_unit_bad(kernel, seq) or (len(seq) == 1 and seq[0] >= 0x80 and kernel != want), 'escape gives "%s", expected "%s"' % (''.join(map(chr, kernel)), ''.join(map(chr, want)))
 
 
 # =========================================================================== C09
@@ -354,14 +434,16 @@ def replay_ladder_models(env, rep, known, o):
         flags = [m[n] for n in Q.FLAG_NAMES]
         want = py_ladder(env, seq, flags)
         settings = {SETTING_OF_FLAG[i]: True for i in range(6) if flags[i]}
-        got = env.eval([{'op': 'class_tokens', 's': seq, 'flags': flags}, {'op': 'build', 'cases': [seq], 'settings': settings}])
+        got = env.eval([{'op': 'class_tokens', 's': seq, 'flags': flags}, {'op': 'build', 'cases': [seq], 'settings': settings},
+                        {'op': 'split', 's': seq}])
         mine = got[0].get('ok')
         pat = got[1].get('ok') or []
+        reachable = len(seq) == 1 or got[2].get('ok') == [seq]
         key = 'c=%s,flags=%s' % ('+'.join(u(x) for x in seq), ''.join('1' if f else '0' for f in flags))
         what = 'substituted "%s", documented precedence over the regex classes gives "%s"; build() gives %s' % (
             ''.join(map(chr, mine or [])), ''.join(map(chr, want)), json.dumps(''.join(map(chr, pat))))
         classify(rep, known, o.qid, key, what, {'inputs': {'cps': seq, 'flags': flags}, 'expected': want, 'observed': got},
-                 mine != want)
+                 mine != want and reachable)
 
 
 def check_c03(rep):
@@ -379,9 +461,9 @@ def check_c03(rep):
     obs = [ob_add(rep, Q.q03a(env.ctx, 1)), ob_add(rep, Q.q03b(env.ctx))]
     single = obs[0].verdict.models if (obs[0].verdict and obs[0].result == 'sat') else []
     if len(single) < env.ctx.cap('Q03a'):
-        obs.append(ob_add(rep, Q.q03a(env.ctx, 2, exclude=single)))
+        obs.append(decide_unit_obligation(rep, Q.q03a, env.ctx, 2, exclude=single))
         if rep.tier == 'thorough':
-            obs.append(ob_add(rep, Q.q03a(env.ctx, 3, exclude=single)))
+            obs.append(decide_unit_obligation(rep, Q.q03a, env.ctx, 3, exclude=single))
     cases = []
     rnd = random.Random(rep.seed + 1)
     cpsl = sample_cps(rep)
@@ -419,11 +501,18 @@ def replay_c03(env, rec):
 
 # =========================================================================== C04
 def check_c04(rep):
-    rep.statement = ('for every scalar value c, the lower-casing step of case-insensitive matching maps the one-code-point test '
+    rep.statement = ('(1) for every scalar value c, the lower-casing step of case-insensitive matching maps the one-code-point test '
                      'case [c] to [r] with r one code point in the same simple-case-folding orbit (regex crate) as c, i.e. (?i)r '
-                     'matches c and accepts exactly the case variants of c; the step is idempotent.')
-    rep.outside = ['test cases longer than one code point (final-sigma context, collapse of case variants)',
-                   'presence of (?i) in the printed pattern', 'interaction with the rest of the pipeline']
+                     'matches c and accepts exactly the case variants of c; the step is idempotent; (2) the same position by position for '
+                     'test cases of 2 (thorough: 3) code points; (3) the whole preprocessing at the head of RegExp::from (executed from MIR up '
+                     'to grapheme_clusters), with case-insensitive matching on or off, neither loses nor invents a test case: every input has a '
+                     'case variant in the list that reaches the automaton stage and vice versa (lists of 2-3 test cases of 1-2 code points).')
+    rep.outside = ['test cases containing U+03A3 (final-sigma context of str::to_lowercase is not modelled)',
+                   'longer lists / longer test cases than the stated bounds',
+                   'presence of (?i) in the printed pattern', 'the automaton pipeline after preprocessing']
+    rep.assumptions += ['(2) and (3) treat to_lowercase / to_uppercase as uninterpreted per-code-point mappings constrained by lemmas that (1) '
+                        'decides on the real tables in the same run; a counterexample of the abstraction is re-decided with the real tables '
+                        '(std dump + regex-syntax folding) before it is replayed']
     rep.assumptions += ['str::to_lowercase is NOT executed: it is a table stub = its own exhaustive one-code-point dump from the '
                         'toolchain that builds the tree (Kani could not execute it; DESIGN 3)']
     env = Env(rep)
@@ -470,9 +559,48 @@ def check_c04(rep):
                 what = 'lower-casing is not idempotent: %s -> %s -> %s' % (u(c), r, r2)
                 repro = r2 != r
             classify(rep, known, o.qid, key, what, {'inputs': {'c': c}, 'observed': {'lower': r, 'pattern': pat, 'matches': matched}}, repro)
+    # longer test cases and lists of test cases (lemma-based: sound only if Q04's all-SAT set is complete)
+    f2 = o1.verdict.models if (o1.verdict and o1.result == 'sat') else []
+    complete = o1.result in ('unsat', 'sat') and 'cap' not in (o1.verdict.note or '')
+    if not complete:
+        rep.inconclusive.append('Q04n/Q04p skipped: the set of one-code-point counterexamples is not complete (%s)' % (o1.verdict.note if o1.verdict else o1.inconclusive))
+    else:
+        more = [Q.q04n(env.ctx, 2, exclude=f2)]
+        for lens in ([(1, 1), (1, 2)] if rep.tier == 'quick' else [(1, 1), (1, 2), (2, 2), (1, 1, 1)]):
+            more.append(Q.q04p(env.ctx, lens, exclude=f2))
+        if rep.tier == 'thorough':
+            more.append(Q.q04n(env.ctx, 3, exclude=f2))
+        for o in more:
+            ob_add(rep, o)
+            if o.result != 'sat':
+                continue
+            for m in o.verdict.models:
+                if o.qid.startswith('Q04n'):
+                    n_ = len([k for k in m if re.fullmatch(r'c\d+', k)])
+                    cases_ = [[m['c%d' % i] for i in range(n_)]]
+                    ci_ = True
+                else:
+                    lens_ = [int(x) for x in o.qid[5:-1].split(',')]
+                    cases_ = [[m['s%d_%d' % (i, j)] for j in range(n)] for i, n in enumerate(lens_)]
+                    ci_ = bool(m.get('cfg_is_case_insensitive_matching', True))
+                repro, what = c04_list_replay(env, cases_, ci_)
+                key = 'cases=%s,ignore_case=%s' % ('/'.join('+'.join(u(x) for x in c_) for c_ in cases_), str(ci_).lower())
+                classify(rep, known, o.qid, key, what, {'inputs': {'cases': cases_, 'ignore_case': ci_}}, repro)
+
+
+def c04_list_replay(env, cases_, ci_):
+    got = env.eval([{'op': 'build', 'cases': cases_, 'settings': {'ignore_case': ci_}}])
+    pat = got[0].get('ok') or []
+    ms = env.eval([{'op': 'regex_is_match', 'pattern': pat, 'text': c_} for c_ in cases_])
+    missed = [c_ for c_, r in zip(cases_, ms) if r.get('ok') is not True]
+    what = 'build(%s, ignore_case=%s) = %s does not match the test case(s) %s' % (
+        ['+'.join(u(x) for x in c_) for c_ in cases_], ci_, json.dumps(''.join(map(chr, pat))), ['+'.join(u(x) for x in c_) for c_ in missed])
+    return bool(missed) or 'panic' in got[0], what
 
 
 def replay_c04(env, rec):
+    if 'cases' in rec['inputs']:
+        return c04_list_replay(env, rec['inputs']['cases'], rec['inputs']['ignore_case'])
     c = rec['inputs']['c']
     got = env.eval([{'op': 'build', 'cases': [[c]], 'settings': {'ignore_case': True}}])
     pat = got[0].get('ok') or []
@@ -490,7 +618,10 @@ def check_c07(rep):
                      'when both anchors are disabled), and its units always partition the input in order; (3) escape_regexp_symbols '
                      'turns every unit of 1..=%d code points (multi-code-point units without backslash, by (2)) into text that the '
                      'regex crate reads as exactly those literals: every metacharacter, control character and the backslash is '
-                     'escaped, for both settings of non-ASCII escaping.' % (nmax, 2 if rep.tier == 'quick' else 3))
+                     'escaped, for both settings of non-ASCII escaping (units may also contain shorthand-class tokens, kept verbatim); '
+                     '(4) indent_regexp, the verbose-mode indentation, never panics (no arithmetic overflow) and only prepends '
+                     'two-space indents to the non-empty lines, for every text of <= 3 lines of <= %d arbitrary code points.'
+                     % (nmax, 2 if rep.tier == 'quick' else 3, 2 if rep.tier == 'quick' else 3))
     rep.outside = ['totality of build() on arbitrary lists and the 2^15 settings lattice', 'validity of everything the printer emits',
                    'units longer than %d code points' % nmax,
                    'cluster shapes other than base + Extend* when the unconstrained query is sat (realisability filter)']
@@ -540,29 +671,56 @@ def check_c07(rep):
                      kept and (invalid or panics))
     # escaping of metacharacters: every unit becomes text that denotes exactly that literal
     single = []
-    for n in ((1, 2) if rep.tier == 'quick' else (1, 2, 3)):
+    shapes = ['c', 'cc', 'tc', 'ct', 'tt'] + (['ccc', 'tcc', 'ctc', 'cct'] if rep.tier == 'thorough' else [])
+    for shape in shapes:
         if len(single) >= env.ctx.cap('Q07e'):
             break
-        o = ob_add(rep, Q.q07e(env.ctx, n, exclude=single))
+        o = decide_unit_obligation(rep, Q.q07e, env.ctx, shape, exclude=single)
         if o.result != 'sat':
             continue
-        if n == 1:
+        if shape == 'c':
             single = o.verdict.models
         for m in o.verdict.models:
-            seq = [m['c%d' % i] for i in range(n)]
+            seq = []
+            for i, k in enumerate(shape):
+                seq += [m['c%d' % i]] if k == 'c' else [92, m['t%d' % i]]
+            lits = ''.join(chr(m['c%d' % i]) if k == 'c' else 'x' for i, k in enumerate(shape))
             esc, surr = m['esc'], m['surr']
             got = env.eval([{'op': 'escape_regexp_symbols', 's': seq, 'escape': esc, 'surrogates': surr}])
             text = got[0].get('ok') or []
             # the text must parse, piece by piece, to the literals; checked with the regex crate on the whole text
             want = ''.join(map(chr, seq))
-            r = env.eval([{'op': 'regex_find', 'pattern': [ord('^')] + text + [ord('$')], 'text': seq},
-                          {'op': 'build', 'cases': [seq], 'settings': {'escape': esc, 'surrogates': surr}}])
-            ok = isinstance(r[0].get('ok'), list)
+            # class tokens match one word/digit/space character; the literals must match themselves
+            probe = [ord(ch) for ch in ''.join(chr(m['c%d' % i]) if k == 'c' else {'d': '7', 'D': 'x', 's': ' ', 'S': 'x', 'w': 'x', 'W': '-'}[chr(m['t%d' % i])]
+                                               for i, k in enumerate(shape))]
+            r = env.eval([{'op': 'regex_find', 'pattern': [ord('^')] + text + [ord('$')], 'text': probe},
+                          {'op': 'build', 'cases': [probe], 'settings': {'escape': esc, 'surrogates': surr}}])
+            ok = isinstance(r[0].get('ok'), list) and r[0]['ok'][0] == 0 and r[0]['ok'][1] == r[0]['ok'][2]
             key = 's=%s,escape=%s,surrogates=%s' % ('+'.join(u(x) for x in seq), str(esc).lower(), str(surr).lower())
             what = 'escape_regexp_symbols turns %s into %s, which the regex crate does not read as that literal (%s); build() gives %s' % (
                 '+'.join(u(x) for x in seq), json.dumps(''.join(map(chr, text))), r[0], json.dumps(''.join(map(chr, r[1].get('ok') or []))) if 'ok' in r[1] else r[1])
-            classify(rep, known, o.qid, key, what, {'inputs': {'e': seq, 'escape': esc, 'surrogates': surr}, 'observed': {'text': text, 'regex': r[0]}},
+            classify(rep, known, o.qid, key, what, {'inputs': {'e': seq, 'probe': probe, 'escape': esc, 'surrogates': surr}, 'observed': {'text': text, 'regex': r[0]}},
                      not ok and not (surr and esc and any(x >= 0x10000 for x in seq)))
+    # verbose-mode indentation: total (no arithmetic panic) and content-preserving
+    io = ob_add(rep, Q.q07i(env.ctx, 3, 2) if rep.tier == 'quick' else Q.q07i(env.ctx, 3, 3))
+    if io.result == 'sat':
+        combos = io.extra.get('line_length_combinations', [])
+        for m in io.verdict.models:
+            lens = combos[m['shape']] if m.get('shape', 0) < len(combos) else None
+            if lens is None:
+                continue
+            lines = [[m.get('l%d_%d' % (i, j), 0x61) for j in range(n)] for i, n in enumerate(lens)]
+            text = []
+            for i, l in enumerate(lines):
+                if i:
+                    text.append(10)
+                text += l
+            nsa = bool(m.get('cfg_is_start_anchor_disabled', False))
+            got = env.eval([{'op': 'indent_regexp', 's': text, 'no_start_anchor': nsa, 'colored': False}])
+            bad, what = indent_bad(got[0], lines)
+            key = 'text=%s,no_start_anchor=%s' % (json.dumps(''.join(map(chr, text))), str(nsa).lower())
+            classify(rep, known, io.qid, key, 'indent_regexp(%s): %s' % (json.dumps(''.join(map(chr, text))), what),
+                     {'inputs': {'indent': text, 'lines': lines, 'no_start_anchor': nsa}, 'observed': got}, bad)
     vcases = []
     for c in sample_cps(rep, 8):
         for esc, surr in ((False, False), (True, False), (True, True)):
@@ -614,13 +772,27 @@ def check_c07(rep):
     rep.trusted += ['Kani 0.68.0 / CBMC 6.11.0 / CaDiCaL on the compiled code (nightly-2026-08-21 std)']
 
 
+def indent_bad(res, lines):
+    if 'panic' in res:
+        return True, 'panics: %s' % str(res['panic'])[:80]
+    out = ''.join(map(chr, res.get('ok') or []))
+    want = [''.join(map(chr, l)) for l in lines if l]
+    got = out.split('\n') if out else []
+    ok = len(got) == len(want) and all(g.endswith(w) and set(g[:len(g) - len(w)]) <= {' '} and (len(g) - len(w)) % 2 == 0 for g, w in zip(got, want))
+    return (not ok), 'returns %s for the lines %s' % (json.dumps(out), want)
+
+
 def replay_c07(env, rec):
+    if 'indent' in rec['inputs']:
+        got = env.eval([{'op': 'indent_regexp', 's': rec['inputs']['indent'], 'no_start_anchor': rec['inputs']['no_start_anchor'], 'colored': False}])
+        return indent_bad(got[0], rec['inputs']['lines'])
     if 'e' in rec['inputs']:
         seq, esc, surr = rec['inputs']['e'], rec['inputs']['escape'], rec['inputs']['surrogates']
         got = env.eval([{'op': 'escape_regexp_symbols', 's': seq, 'escape': esc, 'surrogates': surr}])
         text = got[0].get('ok') or []
-        r = env.eval([{'op': 'regex_find', 'pattern': [ord('^')] + text + [ord('$')], 'text': seq}])
-        return not isinstance(r[0].get('ok'), list), 'escaped text %s; regex crate: %s' % (json.dumps(''.join(map(chr, text))), r[0])
+        r = env.eval([{'op': 'regex_find', 'pattern': [ord('^')] + text + [ord('$')], 'text': rec['inputs'].get('probe', seq)}])
+        ok = isinstance(r[0].get('ok'), list) and r[0]['ok'][0] == 0 and r[0]['ok'][1] == r[0]['ok'][2]
+        return not ok, 'escaped text %s; regex crate: %s' % (json.dumps(''.join(map(chr, text))), r[0])
     if 's' in rec['inputs']:
         s = rec['inputs']['s']
         got = env.eval([{'op': 'split', 's': s}, {'op': 'build', 'cases': [s], 'settings': {'no_anchors': True}}])
@@ -633,19 +805,43 @@ def replay_c07(env, rec):
 
 # =========================================================================== C10
 def check_c10(rep):
-    rep.statement = ('one clause of the property: the settings are unaffected by the order in which they were applied and are '
+    rep.statement = ('(A) the test-case list that reaches the automaton stage is a function of the SET of test cases: the preprocessing '
+                     'at the head of RegExp::from (case conversion, sort, dedup, length sort -- executed from MIR up to the call of '
+                     'grapheme_clusters) is idempotent (a second build() or a clone sees a fixpoint), independent of the order of the '
+                     'input list and insensitive to duplicates, for lists of 2-3 test cases of 1-2 arbitrary code points with the '
+                     'case-insensitive flag symbolic; (B) the settings are unaffected by the order in which they were applied and are '
                      'preserved by clone().  For an ARBITRARY builder state and every pair of setters with arbitrary arguments: '
                      'applying them in either order gives the same RegExpConfig; repeating a setter with the same argument changes '
                      'nothing; no setter touches the test cases; each setter changes only its own field(s); clone() preserves config '
                      'and test cases.  (One inductive step from an arbitrary state, so it covers setter histories of any length.)')
-    rep.outside = ['order and duplicates of the input list (sort/dedup of heap strings: not executable by CBMC, DESIGN 3)',
-                   'HashSet iteration order / per-process hash seeds in the minimiser', 'threads and processes',
-                   'repeated build() calls (build mutates the test cases through the pipeline)']
+    rep.outside = ['everything after preprocessing: HashSet iteration order / per-process hash seeds in the minimiser, the fallback alternation',
+                   'threads and processes', 'lists of more than 3 test cases or test cases longer than 2 code points; test cases containing U+03A3',
+                   'Kani cannot execute the sort of heap strings (DESIGN 3); this part rests on mirsym alone']
+    rep.assumptions += ['Q10p treats str::to_lowercase as an uninterpreted per-code-point mapping constrained by lemmas that Q04b decides on '
+                        'the real table (idempotence where one code point is kept); a counterexample of the abstraction is re-decided with the '
+                        'real table before it is replayed', '<[String]>::sort / sort_by are modelled as THE stable sorted permutation (insertion '
+                        'sort with the comparator run from MIR); Vec::dedup removes consecutive equal elements']
     env = Env(rep, need_native=True)
     known, _ = load_known()
     o = ob_add(rep, Q.q10(env.ctx))
     if o.result == 'sat':
         rep.nonrepro.append('Q10 is sat: %s (replay of setter pairs is done by the Kani harnesses below)' % json.dumps(o.verdict.models[0])[:300])
+    # order of the input list, duplicates, repeated build(): the preprocessing at the head of RegExp::from
+    for lens in ([(1, 1), (1, 2)] if rep.tier == 'quick' else [(1, 1), (1, 2), (2, 2), (1, 1, 1)]):
+        po = ob_add(rep, Q.q10p(env.ctx, lens))
+        if po.result != 'sat':
+            continue
+        for m in po.verdict.models:
+            cases_ = [[m['s%d_%d' % (i, j)] for j in range(n)] for i, n in enumerate(lens)]
+            st_ = {'ignore_case': bool(m.get('cfg_is_case_insensitive_matching', False))}
+            got = env.eval([{'op': 'build_twice', 'cases': cases_, 'settings': st_},
+                            {'op': 'build', 'cases': cases_[::-1], 'settings': st_},
+                            {'op': 'build', 'cases': cases_ + [cases_[0]], 'settings': st_}])
+            outs_ = [''.join(map(chr, x)) for x in (got[0].get('ok') or [[], [], []])] + \
+                    [''.join(map(chr, g.get('ok') or [])) for g in got[1:]]
+            key = 'cases=%s,ignore_case=%s' % ('/'.join('+'.join(u(x) for x in c_) for c_ in cases_), str(st_['ignore_case']).lower())
+            what = 'build() = %s, second build() on the same builder = %s, on a clone = %s, reversed input = %s, with a duplicate = %s' % tuple(json.dumps(x) for x in outs_)
+            classify(rep, known, po.qid, key, what, {'inputs': {'cases': cases_, 'settings': st_}, 'observed': outs_}, len(set(outs_)) > 1)
     kani.prepare_lib_crate()
     os.environ['GREX_VERIF_ORACLE_RS'] = kani.gen_oracle_rs(env.oracle)
     hs = [(h, 'lib', 600, 8_000_000) for h in ('h10c_setters_commute', 'h10f_setter_frame_and_idempotence', 'h10k_clone_preserves_settings')]
@@ -689,6 +885,12 @@ def setter_replay_ops(vals):
 
 
 def replay_c10(env, rec):
+    if 'cases' in rec['inputs']:
+        c_, st_ = rec['inputs']['cases'], rec['inputs']['settings']
+        got = env.eval([{'op': 'build_twice', 'cases': c_, 'settings': st_}, {'op': 'build', 'cases': c_[::-1], 'settings': st_},
+                        {'op': 'build', 'cases': c_ + [c_[0]], 'settings': st_}])
+        outs_ = [''.join(map(chr, x)) for x in (got[0].get('ok') or [[], [], []])] + [''.join(map(chr, g.get('ok') or [])) for g in got[1:]]
+        return len(set(outs_)) > 1, str(outs_)
     ops = setter_replay_ops(rec['inputs'].get('playback', []))
     if not ops:
         return False, 'no replayable values'
@@ -770,7 +972,12 @@ def replay_cli(name, vals, r):
         return (bad, 'input=missing-file', 'grex -f <missing file>: exit %d, stderr %s' % (p.returncode, p.stderr.strip()[:120]),
                 {'inputs': {'kind': 'missing-file', 'args': args}, 'observed': {'exit': p.returncode, 'stderr': p.stderr[:400]}})
     # flag mapping: compare the binary's output with the library called with the documented settings
-    cases = ['a'] if name.startswith('h12m') else ['a', 'b']
+    def drawn(i):
+        try:
+            return '' if vals[i]['bytes'][0] else 'a'
+        except (IndexError, KeyError):
+            return 'a'
+    cases = [drawn(18)] if name.startswith('h12m') else [drawn(18), drawn(19)]
     p = subprocess.run([binp] + args + cases, capture_output=True, text=True, stdin=subprocess.DEVNULL)
     native, _ = prep.native_build('release')
     st = {}
@@ -810,6 +1017,113 @@ def replay_c12(env, rec):
         return p.returncode != 1 or 'panicked' in p.stderr, 'exit %d: %s' % (p.returncode, p.stderr.strip()[:200])
     p = subprocess.run([binp] + args + rec['inputs']['cases'], capture_output=True, text=True, stdin=subprocess.DEVNULL)
     return p.stdout != rec['observed']['library'], 'stdout %s vs library %s' % (json.dumps(p.stdout), json.dumps(rec['observed']['library']))
+
+
+# =========================================================================== C05 / C13  (cluster-level repetition conversion)
+def replay_cluster(env, s_, minrep, minlen, clause):
+    got = env.eval([{'op': 'cluster_repetitions', 's': s_, 'min_repetitions': minrep, 'min_substring_length': minlen}])
+    if 'ok' not in got[0]:
+        return True, 'convert_repetitions panics: %s' % str(got[0])[:120], got
+    rows = got[0]['ok']
+
+    def walk(i, depth):
+        """-> (next index, expansion of the grapheme at rows[i], threshold violations)"""
+        d, chars, mn, mx = rows[i]
+        j = i + 1
+        nested, viol = [], []
+        while j < len(rows) and rows[j][0] > depth:
+            j, e, v = walk(j, depth + 1)
+            nested += e
+            viol += v
+        own = [tuple(c) for c in chars]
+        if mn != mx:
+            viol.append('ranged count {%d,%d}' % (mn, mx))
+        if mn > 1 and not (mn > minrep and len(own) >= minlen):
+            viol.append('unit %s x%d (min_repetitions %d, min_substring_length %d)' % (''.join(''.join(map(chr, c)) for c in own), mn, minrep, minlen))
+        if nested and nested != own:
+            viol.append('nested rendering differs from the unit')
+        return j, own * mn, viol
+    i, flat, viol = 0, [], []
+    while i < len(rows):
+        i, e, v = walk(i, 0)
+        flat += e
+        viol += v
+    orig = [(c,) for c in s_]
+    notation_bad = flat != orig or any('nested' in v for v in viol)
+    thr_bad = any('unit ' in v or 'ranged' in v for v in viol)
+    text = 'convert_repetitions(%s, min_repetitions=%d, min_substring_length=%d) -> %s' % (
+        json.dumps(''.join(map(chr, s_))), minrep, minlen,
+        ' '.join('%s%s{%d}' % ('  ' * r[0], '|'.join(''.join(map(chr, c)) for c in r[1]), r[2]) for r in rows))
+    if clause == 'notation':
+        return notation_bad, text + ('; expansion differs from the test case' if notation_bad else ''), got
+    return thr_bad, text + ('; ' + '; '.join(viol) if viol else ''), got
+
+
+def check_cluster(rep, clause):
+    env = Env(rep)
+    known, _ = load_known()
+    ns = (2, 3, 4, 5, 6) if rep.tier == 'quick' else (2, 3, 4, 5, 6, 7, 8)
+    for n in ns:
+        o = Q.q05r(env.ctx, n, clause)
+        if o.result == 'sat':
+            # counterexamples with arbitrary code points may not survive grapheme clustering: ask for letters a..z
+            d = o.as_dict()
+            d['result'] = 'superseded'
+            d['note'] = 'sat for arbitrary code points; re-decided over the letters a..z so that the counterexample is a plain string'
+            rep.obligations.append(d)
+            o = Q.q05r(env.ctx, n, clause, letters=True)
+        ob_add(rep, o)
+        if o.result != 'sat':
+            continue
+        for m in o.verdict.models:
+            s_ = [m['g%d' % i] for i in range(n)]
+            minrep, minlen = m['cfg_minimum_repetitions'], m['cfg_minimum_substring_length']
+            bad, what, got = replay_cluster(env, s_, minrep, minlen, clause)
+            key = 's=%s,min_repetitions=%d,min_substring_length=%d' % (json.dumps(''.join(map(chr, s_))), minrep, minlen)
+            classify(rep, known, o.qid, key, what, {'inputs': {'s': s_, 'min_repetitions': minrep, 'min_substring_length': minlen, 'clause': clause},
+                                                    'observed': got}, bad)
+    # translator validation: concrete strings through the encoding and through the real function
+    cases = []
+    rnd = random.Random(rep.seed + 5)
+    for s_ in ('aa', 'aaa', 'abab', 'aabb', 'abcabc', 'aaaa', 'abba', 'xyzxyz', 'aabaab', 'ababab', 'zzzzz', 'abcab'):
+        for (mr, ml) in ((1, 1), (2, 1), (1, 2), (rnd.choice([1, 2, 3]), rnd.choice([1, 2, 3]))):
+            inp = {'s': [ord(c) for c in s_], 'min_repetitions': mr, 'min_substring_length': ml}
+            cases.append(('cluster_repetitions', inp, dict(inp, op='cluster_repetitions')))
+    validate(env, rep, cases)
+
+
+def check_c05(rep):
+    rep.statement = ('kernel "in-cluster notation change": for every cluster of n <= %d one-code-point graphemes and all positive thresholds, '
+                     'GraphemeCluster::convert_repetitions (collect_repeated_substrings, create_ranges_of_repetitions, coalesce_repetitions, '
+                     'replace_graphemes_with_repetitions and the recursion into nested units, all executed from MIR) returns graphemes whose '
+                     'expansion -- every unit repeated its {k} times, nested renderings expanded -- is exactly the original grapheme sequence; '
+                     'counts are exact (min == max) and no panic is reachable.' % (6 if rep.tier == 'quick' else 8))
+    rep.outside = ['merging of adjacent repeat counts into ranges while inserting into the trie (Dfa::find_next_state), label matching in the '
+                   'minimiser: the known over-matching ["aab","aaac"] -> a{2,3}[bc] (DESIGN 6, F5) lives there and is NOT seen by this check',
+                   'printing of {n} / {m,n} and the group around multi-character units (Display for Grapheme)',
+                   'graphemes of more than one code point; clusters longer than the bound']
+    rep.assumptions += ['HashMap is modelled as an insertion-ordered association list (the real iteration order is arbitrary; the code sorts the '
+                        'entries by (length, first index), a total order on distinct keys, before using them)',
+                        'itertools sorted_by_key / chunk_by / coalesce / tuple_windows and Vec::splice are modelled by their documented behaviour']
+    check_cluster(rep, 'notation')
+
+
+def check_c13(rep):
+    rep.statement = ('kernel "thresholds inside one test case": for every cluster of n <= %d one-code-point graphemes and all positive '
+                     'thresholds, every quantified unit that GraphemeCluster::convert_repetitions produces, at any nesting depth, has a '
+                     'count strictly greater than minimum_repetitions and spans at least minimum_substring_length graphemes; counts are exact.'
+                     % (6 if rep.tier == 'quick' else 8))
+    rep.outside = ['"without repetition conversion the pattern contains no quantifier" (the gate is one if in RegExp::grapheme_clusters; the printed '
+                   'pattern is fmt code)', 'ranges {m,n} created by trie-edge merging in Dfa::find_next_state and their printing',
+                   'graphemes of more than one code point; clusters longer than the bound']
+    rep.assumptions += ['HashMap modelled as an insertion-ordered association list; itertools adaptors by their documented behaviour (see C05)']
+    check_cluster(rep, 'thresholds')
+
+
+def replay_c05(env, rec):
+    i = rec['inputs']
+    bad, what, _ = replay_cluster(env, i['s'], i['min_repetitions'], i['min_substring_length'], i.get('clause', 'notation'))
+    return bad, what
 
 
 # =========================================================================== C15
@@ -899,8 +1213,8 @@ def replay_c15(env, rec):
 
 
 # --------------------------------------------------------------------------- driver
-CHECKS = {'C03': check_c03, 'C04': check_c04, 'C07': check_c07, 'C09': check_c09, 'C10': check_c10, 'C11': check_c11, 'C12': check_c12, 'C15': check_c15}
-REPLAYS = {'C03': replay_c03, 'C04': replay_c04, 'C07': replay_c07, 'C09': replay_c09, 'C10': replay_c10, 'C11': replay_c11, 'C12': replay_c12, 'C15': replay_c15}
+CHECKS = {'C03': check_c03, 'C04': check_c04, 'C07': check_c07, 'C09': check_c09, 'C10': check_c10, 'C11': check_c11, 'C12': check_c12, 'C15': check_c15, 'C05': check_c05, 'C13': check_c13}
+REPLAYS = {'C03': replay_c03, 'C04': replay_c04, 'C07': replay_c07, 'C09': replay_c09, 'C10': replay_c10, 'C11': replay_c11, 'C12': replay_c12, 'C15': replay_c15, 'C05': replay_c05, 'C13': replay_c05}
 
 
 def write_evidence(rep, exit_code):
@@ -948,8 +1262,8 @@ def write_evidence(rep, exit_code):
             'exit_code': exit_code,
         },
     }
-    os.makedirs(os.path.join(VERIF, 'evidence'), exist_ok=True)
-    with open(os.path.join(VERIF, 'evidence', rep.prop + '.json'), 'w') as f:
+    os.makedirs(os.path.join(OUT, 'evidence'), exist_ok=True)
+    with open(os.path.join(OUT, 'evidence', rep.prop + '.json'), 'w') as f:
         json.dump(ev, f, indent=1, default=str)
 
 
